@@ -45,6 +45,13 @@ def run(chk):
            min_instances=2)
   atomic_fragments(chk, 'C01-R6')
 
+  chk.rule('C01-R7', 'translating an expression does not rewrite it: no method '
+           'of QL reachable from ConvertToSql stores into the tree it is given '
+           '(the same expression object stands at every use of a variable, so a '
+           'rewrite during the first translation changes all later ones)',
+           min_instances=15)
+  pure_translation(chk, 'C01-R7')
+
   chk.rule('C01-R4', 'several rules are combined with UNION ALL and no '
            'DISTINCT; GROUP BY is emitted only for distinct_vars',
            min_instances=3)
@@ -120,6 +127,34 @@ def atomic_fragments(chk, rid):
   if not comb:
     raise AnalysisError("ConvertToSql: 'combine' branch not found")
   run_branch(comb[0].body, 'combine sub-query')
+
+
+# ---------------------------------------------------------------------------
+def pure_translation(chk, rid):
+  from sa import shapes
+  from sa.callgraph import CallGraph
+  repo = chk.repo
+  m = repo.by_name('expr_translate')
+  cg = CallGraph(repo, [m])
+  reach = cg.reachable(['expr_translate.QL.ConvertToSql'])
+  for fq in sorted(reach):
+    fi = cg.funcs.get(fq)
+    if fi is None or fi.module is not m:
+      continue
+    params = [p_ for p_ in fi.params if p_ not in ('self', 'cls')]
+    # nested helpers see the parameters of the enclosing method too
+    q = fi.parent
+    while q is not None:
+      params += [p_ for p_ in q.params if p_ not in ('self', 'cls')]
+      q = q.parent
+    if not params:
+      continue
+    bad = shapes.stores_into_arguments(fi.node, params)
+    chk.ob(rid, not bad, None, '%s leaves the tree it translates untouched' % fi.qualname,
+           'the translation writes into the expression it was given (`%s`): the '
+           'object is shared by every use of the variable it was unified with, '
+           'so later uses are translated from the rewritten tree'
+           % ', '.join(b[1] for b in bad[:3]), fi=fi, node=bad[0][0] if bad else None)
 
 
 # ---------------------------------------------------------------------------
